@@ -434,21 +434,9 @@ def envOf (tab : List (List UInt8 × R)) : PdfLex.Env R :=
     decrypt := none
     fileOffset := 0 }
 
-/-- The oracle of the driver.  `isEof`: the error is an EOF error when no lexeme is left, when the failing
-    operand starts a literal string (its lexer fails only by running off the end), or a hexadecimal string
-    that is never closed; other run-offs (unterminated arrays / dictionaries) are not recognised (such inputs
-    are outside the domain of the property; the streams that contain them are drift-only).
-    Inline images are not modelled at byte level (`.oof` → `unmodelled`). -/
-def byteOracle : ContentBytes.Oracle :=
-  { isEof := fun buf pos => match PdfLex.next buf pos with
-      | .err => true
-      | .ok w =>
-        let t := PdfLex.slice buf w.1 w.2
-        if t == [40] then true
-        else if t == [60] then !((buf.extract w.2 buf.size).toList.contains 62)
-        else false
-      | _ => false
-    inlineImage := fun _ _ => .oof }
+/-- the oracle of the driver: `ContentBytes.lexOracle`; inline images are not modelled at byte level
+    (`.oof` → `unmodelled`) -/
+def byteOracle : ContentBytes.Oracle := ContentBytes.lexOracle (fun _ _ => .oof)
 
 def handle (args : List String) : String :=
   match args with
